@@ -361,10 +361,7 @@ theorem TwinInv.calculate_all {nm : String} {s : IndState F} {H H' : Hexital F} 
 /-- the managers' half of `Hexital.append`: every manager appends the new candles -/
 theorem TwinInv.append_fold {nm : String} (new : List (Candle F)) :
     ∀ (ks : List String) (s : IndState F) (H H' : Hexital F), ks.Nodup → TwinInv N nm s H →
-      ks.foldlM (fun (h : Hexital F) (k : String) => do
-        let m ← h.manager k
-        let m' ← m.append new
-        return h.setManager k m') H = .ok H' →
+      ks.foldlM (Hexital.feedOne new) H = .ok H' →
       (defaultKey ∈ ks → ∃ m', s.mgr.append new = .ok m' ∧ TwinInv N nm { s with mgr := m' } H') ∧
       (defaultKey ∉ ks → TwinInv N nm s H') := by
   intro ks
@@ -377,6 +374,7 @@ theorem TwinInv.append_fold {nm : String} (new : List (Candle F)) :
     intro s H H' hnd inv e
     rw [List.foldlM_cons] at e
     obtain ⟨H1, e1, e2⟩ := bind_ok e
+    unfold Hexital.feedOne at e1
     obtain ⟨mk, hmk, e1⟩ := bind_ok e1
     obtain ⟨mk', hmk', e1⟩ := bind_ok e1
     cases e1
@@ -412,8 +410,9 @@ theorem TwinInv.append {nm : String} {s : IndState F} {H H' : Hexital F} (inv : 
     (hok : TreeOK N s.tree) (new : List (Candle F)) (hop : H.append new = .ok H') :
     ∃ s', s.append new = .ok s' ∧ s'.tree = s.tree ∧ TwinInv N nm s' H' := by
   unfold Hexital.append at hop
-  dsimp only at hop
   obtain ⟨H1, e1, e2⟩ := bind_ok hop
+  unfold Hexital.feedManagers Hexital.feedOrder at e1
+  dsimp only at e1
   obtain ⟨hi, m, h1, h2, h3, h4⟩ := inv.member
   have hperm : ((H.managers.map (·.1)).drop 1 ++ (H.managers.map (·.1)).take 1).Perm (H.managers.map (·.1)) := by
     have h := (List.perm_append_comm :
